@@ -90,3 +90,13 @@ pub(crate) fn note(kind: Note, ptr: *const u8, len: usize) {
 pub unsafe fn refcount_of_data_ptr(data_ptr: *const u8) -> usize {
     unsafe { crate::repr::verif_refcount_of_data_ptr(data_ptr) }
 }
+
+/// Overwrites the reference count stored in front of a heap buffer's text.
+///
+/// # Safety
+/// `data_ptr` must be the text pointer of a live heap buffer, and the caller must restore a count that matches
+/// the live handles before any of them is dropped.
+#[cfg(not(loom))]
+pub unsafe fn set_refcount_of_data_ptr(data_ptr: *const u8, count: usize) {
+    unsafe { crate::repr::verif_set_refcount_of_data_ptr(data_ptr, count) }
+}
